@@ -108,6 +108,14 @@ def with_compid(desc, vendor, cls, pos, missing=False):
     d = copy.deepcopy(desc)
     man = d["SUIT_Envelope_Tagged"]["suit-manifest"]
     man.pop("suit-manifest-component-id", None)
+    if pos % 3 == 1 and isinstance(man.get("suit-common"), dict):
+        # a root-like manifest: its common section names the installed-manifest components of OTHER (known) classes - before or after the
+        # manifest's own component id, depending on where that is placed
+        others = [["INSTLD_MFST", {"RFC4122_UUID": {"namespace": "nordicsemi.com", "name": n}}] for n in ("nRF54H20_sample_rad", "nRF54H20_sample_app", "nRF54H20_nordic_top")
+                  if (vendor, cls) != ("nordicsemi.com", n)]
+        comps = man["suit-common"].get("suit-components")
+        if isinstance(comps, list):
+            man["suit-common"]["suit-components"] = comps[:2] + others[: 1 + pos % 2]
     if missing:
         return d
     keys = list(man)
@@ -478,6 +486,22 @@ def run_shard(ctx, spec):
             except Violation as v:
                 if not any(f["bucket"] == v.bucket for f in acc.failures):
                     acc.fail("subsets", case, v.observed, v.expected, bucket=v.bucket)
+        if spec["part"] == 0:
+            # envelopes bearing many signatures (twelve authentication blocks, numbered as parse shows them): the stored wrapper is the input's,
+            # block for block
+            from .c02 import auth_block, minimal
+
+            for role, (v, c) in sorted(DEFAULTS[spec["soc"]].items())[:4]:
+                if LAYOUT[spec["soc"]][role][1] < 1024:
+                    continue
+                desc = minimal(auth={f"SuitAuthentication{i}": auth_block(sig="%02x" % i * 4, prot={"suit-cose-key-id": i}) for i in range(1, 13)})
+                case = {"soc": spec["soc"], "base": BASES[0], "route": "api", "config": None, "envs": [{"desc": desc, "vendor": v, "cls": c, "pos": 2}]}
+                try:
+                    judge(case, acc, ctx)
+                    acc.note("twelve-authentication-blocks")
+                except Violation as vv:
+                    if not any(f["bucket"] == vv.bucket for f in acc.failures):
+                        acc.fail("subsets", case, vv.observed, vv.expected, bucket=vv.bucket)
         acc.info["role_subsets_covered"] = n
         acc.info["role_subsets_exhaustive"] = spec["stride"] == 1
         return acc
